@@ -3,7 +3,7 @@
    general proof. *)
 From Coq Require Import Lia String Ascii.
 From Clikit Require Import Base.Prelude Base.Res Model.Conv Model.Flags Model.Format Model.Parser Model.Spell
-     Proofs.StrLemmas Proofs.FlagsLemmas Proofs.FormatLemmas Proofs.ParserLemmas.
+     Proofs.StrLemmas Proofs.FlagsLemmas Proofs.FormatLemmas Proofs.ParserLemmas Proofs.SpellOpts Proofs.SpellArgs.
 
 Module SpellExamples.
   Definition s (x : string) : str := map N_of_ascii (list_ascii_of_string x).
@@ -98,3 +98,82 @@ Module SpellExamples.
   Example X2_excluded : wf_line F1 X2 = false /\ parse F1 true (render X2) <> Ok (denote F1 X2).
   Proof. split; [vm_compute; reflexivity|vm_compute; discriminate]. Qed.
 End SpellExamples.
+
+(* ---------- the token loop over the rendered line ---------- *)
+Lemma names_ok_plain cns names : names_ok cns names = true -> Forall (fun s => plain_tok s = true) names.
+Proof.
+  revert cns. induction names as [|s r IH]; intros cns H; [constructor|].
+  destruct cns as [|c cns]; [discriminate|]. cbn [names_ok] in H. apply andb_prop in H as [H Hr].
+  apply andb_prop in H as [Hp _]. constructor; [exact Hp|eapply IH; exact Hr].
+Qed.
+Lemma items_ok_names f g names items : Forall (fun s => plain_tok s = true) names ->
+  items_ok f g items = true -> items_ok f g (map IPos names ++ items) = true.
+Proof.
+  induction 1 as [|s r Hs Hr IH]; intros Hi; [exact Hi|]. cbn [map app items_ok item_ok looks_ahead].
+  rewrite Hs, (IH Hi). reflexivity.
+Qed.
+Lemma names_as_items names items :
+  flat_map render_item (map IPos names ++ items) = names ++ flat_map render_item items /\
+  flat_map item_pos (map IPos names ++ items) = names ++ flat_map item_pos items /\
+  flat_map item_events (map IPos names ++ items) = flat_map item_events items.
+Proof.
+  induction names as [|s r (IH1 & IH2 & IH3)]; [repeat split; reflexivity|].
+  cbn [map app flat_map render_item item_pos item_events]. rewrite IH1, IH2, IH3. repeat split; reflexivity.
+Qed.
+
+Lemma loop_line f g A cns len d :
+  fmt_facts f g A cns -> names_ok cns (ld_names d) = true -> items_ok f g (ld_items d) = true ->
+  shape A (ld_names d ++ values d) = true ->
+  loop (S (length (render d))) g len true ps_empty (render d) =
+  ({| ps_args := place A (ld_names d ++ values d); ps_opts := fold_left raw_event (events d) [] |}, None).
+Proof.
+  intros FF Hn Hit Hsh. destruct d as [names items tail]. unfold render, values, events in *. cbn [ld_names ld_items ld_tail] in *.
+  set (items' := map IPos names ++ items).
+  destruct (names_as_items names items) as (E1 & E2 & E3). fold items' in E1, E2, E3.
+  rewrite app_assoc, <- E1.
+  assert (items_ok f g items' = true) as Hit' by (apply items_ok_names; [eapply names_ok_plain; exact Hn|exact Hit]).
+  pose proof (render_items_length items') as Hlen.
+  assert (next_dash (render_tail tail) = true) as Hnd by (destruct tail; reflexivity).
+  rewrite app_assoc in Hsh. rewrite <- E2 in Hsh.
+  rewrite (loop_items f g A len (ff_args _ _ _ _ FF) (ff_names _ _ _ _ FF) (ff_nodup _ _ _ _ FF) items' [] ps_empty);
+    [|symmetry; apply place_nil|cbn [app]; eapply shape_app_l; exact Hsh|exact Hit'|exact Hnd|rewrite app_length; lia].
+  cbn [app ps_opts ps_empty]. rewrite E3. rewrite app_length.
+  destruct tail as [tl|]; cbn [render_tail].
+  - cbn [length].
+    replace (S (length (flat_map render_item items') + S (length tl)) - length items')
+      with (S (S (length (flat_map render_item items') + length tl - length items'))) by lia.
+    rewrite loop_dd. rewrite (loop_tail g A len (ff_args _ _ _ _ FF) (ff_names _ _ _ _ FF) (ff_nodup _ _ _ _ FF) tl
+                                (flat_map item_pos items'));
+      [|reflexivity|exact Hsh|lia].
+    cbn [ps_opts]. rewrite E2, <- app_assoc. reflexivity.
+  - cbn [length]. rewrite Nat.add_0_r.
+    replace (S (length (flat_map render_item items')) - length items')
+      with (S (length (flat_map render_item items') - length items')) by lia.
+    cbn [loop]. rewrite E2, app_nil_r. reflexivity.
+Qed.
+
+(* ---------- parse_spells ---------- *)
+Theorem parse_spells_lemma f d : fmt_ok f = true -> wf_line f d = true ->
+  forall lenient, parse f lenient (render d) = Ok (denote f d).
+Proof.
+  intros Hf Hwf len. destruct (fmt_ok_inv f Hf) as (g & A & cns & FF).
+  unfold wf_line in Hwf. rewrite (ff_aug _ _ _ _ FF) in Hwf.
+  apply andb_prop in Hwf as [Hwf Hclash]. apply andb_prop in Hwf as [Hwf Hreq]. apply andb_prop in Hwf as [Hwf Hfit].
+  apply andb_prop in Hwf as [Hn Hit].
+  unfold parse, parse_on. rewrite (ff_aug _ _ _ _ FF).
+  rewrite (loop_line f g A cns len d FF Hn Hit (shape_line f g A cns FF _ _ Hn Hfit)).
+  destruct (finish f g A cns FF (ld_names d) (values d) Hn Hfit Hclash Hreq len (fold_left raw_event (events d) []))
+    as (st2 & Hins & Hopts & Hmiss & Hset).
+  rewrite Hins, Hmiss. cbn [andb snd]. rewrite Hset. cbn [bind]. rewrite Hopts.
+  rewrite (set_options_events f (events d)); [reflexivity| |reflexivity].
+  unfold events. eapply items_events_ok. exact Hit.
+Qed.
+
+(* the stages of the proof plan, as corollaries *)
+Corollary parse_spells_stage1_lemma f d : fmt_ok f = true -> wf_line f d = true ->
+  no_positionals d = true -> no_names d = true ->
+  forall lenient, parse f lenient (render d) = Ok (denote f d).
+Proof. intros Hf Hwf _ _. exact (parse_spells_lemma f d Hf Hwf). Qed.
+Corollary parse_spells_stage2_lemma f d : fmt_ok f = true -> wf_line f d = true -> no_names d = true ->
+  forall lenient, parse f lenient (render d) = Ok (denote f d).
+Proof. intros Hf Hwf _. exact (parse_spells_lemma f d Hf Hwf). Qed.
